@@ -140,7 +140,26 @@ func (x *Exec) stmt(s ast.Stmt, st *State, cx *Ctx, k func(*State)) {
 			k(st)
 			return
 		}
+		// the arguments of a deferred call are evaluated now, the call itself runs at return
+		if len(call.Args) > 0 {
+			var pre []Val
+			for _, a := range call.Args {
+				pre = append(pre, x.eval(st, a))
+			}
+			if st.preArgs == nil {
+				st.preArgs = map[*ast.CallExpr][]Val{}
+			}
+			st.preArgs[call] = pre
+		}
 		st.defers = append(st.defers, deferred{run: func(s2 *State, x *Exec, k2 func(*State)) {
+			if s2.preArgs == nil && st.preArgs != nil {
+				s2.preArgs = map[*ast.CallExpr][]Val{}
+			}
+			if pre, ok := st.preArgs[call]; ok {
+				if _, has := s2.preArgs[call]; !has {
+					s2.preArgs[call] = pre
+				}
+			}
 			if fn := x.staticCallee(call); fn != nil && fn.Pkg() != nil && fn.Pkg().Path() == x.fn.pkgPath() {
 				key := funcKeyOf(fn)
 				if fi := x.prog.funcs[key]; x.sp.Funcs[key] == nil && fi != nil && fi.decl.Body != nil {
@@ -709,7 +728,11 @@ func (x *Exec) inline(call *ast.CallExpr, fi *FuncInfo, st *State, k func(*State
 			args = append(args, x.eval(st, sel.X))
 		}
 	}
-	for _, a := range call.Args {
+	for i, a := range call.Args {
+		if pre, ok := st.preArgs[call]; ok && i < len(pre) {
+			args = append(args, pre[i])
+			continue
+		}
 		args = append(args, x.eval(st, a))
 	}
 	// bind parameters (objects of the callee's declaration)
